@@ -327,14 +327,32 @@ def intercepted_body(pspec, stats):
     from vf.observe import intercept, run_min
     from vf.specs import build
 
-    prob = build(pspec["problem"])
-    upd = "identity" if pspec.get("upd") else None
+    if "run" in pspec:  # C13-style switch spec: the update function really rewrites the stored gradients
+        from vf.props.c13 import make_switch_update
+
+        prob = build(pspec["run"]["problem"])
+        cfg = dict(pspec["run"]["cfg"])
+        upd, _ = make_switch_update(prob, pspec["switch"], {})
+        pspec = {"problem": pspec["run"]["problem"], "cfg": cfg, "switch": pspec["switch"]}
+    else:
+        prob = build(pspec["problem"])
+        cfg = pspec["cfg"]
+        upd = "identity" if pspec.get("upd") else None
     with intercept(("update_lbfgs_matrices",)) as rec:
-        tr = run_min(prob, pspec["cfg"], update_fun_def=upd)
-    if tr.exc is not None:
-        raise tr.exc
+        tr = run_min(prob, cfg, update_fun_def=upd)
     calls = rec.get("update_lbfgs_matrices", [])
+    if tr.exc is not None and "switch" not in pspec:
+        raise tr.exc
     for k, e in enumerate(calls):
+        # the memory handed to the routine (after a possible rewrite + filter) must already consist of
+        # pairs that satisfy the curvature condition
+        Xb, Gb = e.get("X_before", []), e.get("G_before", [])
+        for j in range(len(Xb) - 1):
+            sb, yb = Xb[j + 1] - Xb[j], Gb[j + 1] - Gb[j]
+            require(float(sb @ yb) > EPS * float(yb @ yb) - 64 * EPS * float(np.linalg.norm(sb) * np.linalg.norm(yb)), "stored-pairs-satisfy-curvature",
+                    f"[in-run] call {k}: the memory handed to the update holds pair {j} with s.y={float(sb @ yb)!r}, y.y={float(yb @ yb)!r}")
+        if "exc" in e:
+            continue
         Xa, Ga = e["X_after"], e["G_after"]
         mats = e["out"]
         maxcor = e["args"][4]
@@ -345,7 +363,8 @@ def intercepted_body(pspec, stats):
         if not S:
             continue
         for j, (s, y) in enumerate(zip(S, Y)):
-            require(float(s @ y) > EPS * float(y @ y) - 64 * EPS * float(np.linalg.norm(s) * np.linalg.norm(y)), "stored-pairs-satisfy-curvature", f"[in-run] pair {j}")
+            require(float(s @ y) > EPS * float(y @ y) - 64 * EPS * float(np.linalg.norm(s) * np.linalg.norm(y)), "stored-pairs-satisfy-curvature",
+                    f"[in-run] call {k}: stored pair {j} has s.y={float(s @ y)!r}, y.y={float(y @ y)!r}")
         if not mats.use_factor:
             continue
         if not (np.array_equal(np.asarray(mats.S), np.array(S).T) and np.array_equal(np.asarray(mats.Y), np.array(Y).T)):
@@ -364,7 +383,7 @@ def intercepted_body(pspec, stats):
         dev = float(np.max(np.abs(Bc - Bd))) / float(np.linalg.norm(Bd, 2))
         require(dev <= 1e-8, "compact-form-equals-dense-bfgs", f"[in-run] call {k}: rel dev {dev:.3e}")
         require(np.linalg.eigvalsh(0.5 * (Bc + Bc.T)).min() > 0, "positive-definite", f"[in-run] call {k}")
-        stats.case({"X": [x.tolist() for x in Xa], "G": [g.tolist() for g in Ga]}, len(S) >= 2, ["src=in-run", f"pairs={min(len(S), 3)}"],
+        stats.case({"X": [x.tolist() for x in Xa], "G": [g.tolist() for g in Ga]}, len(S) >= 2, ["src=in-run" + ("-redefinition" if "switch" in pspec else ""), f"pairs={min(len(S), 3)}"],
                    sample={"from_run": pspec["problem"]["obj"]["family"], "call": k, "pairs": len(S), "theta": theta})
 
 
@@ -380,6 +399,9 @@ def run_strategy(draw):
 def shard(ctx):
     ctx.machine("histories", make_machine, ctx.pick(1500, 40000), 40)
     ctx.hyp("in-run", run_strategy(), intercepted_body, ctx.pick(600, 10000))
+    from vf.props.c13 import switch_strategy
+
+    ctx.hyp("in-run-redefinition", switch_strategy(), intercepted_body, ctx.pick(1500, 20000))
 
 
 def replay(spec):
